@@ -7,10 +7,10 @@ from .core import Machinery
 
 LEAF = lambda i, lo=0, hi=1: {"c": "leaf", "id": i, "lo": lo, "hi": hi}
 
-def universe(tier, classes, leaves=None, values=None, signs=(0, 1, -1), ids=("gen", "exp"), comp=2, kids=3, dict_ids=1, exp_ids=(), fix=(-1,)):
+def universe(tier, classes, leaves=None, values=None, signs=(0, 1, -1), ids=("gen", "exp"), comp=2, kids=3, dict_ids=1, exp_ids=(), fix=(-1,), min_kids=1):
     return {"Leaves": {"$set": leaves or [LEAF("a"), LEAF("b"), LEAF("t", -1, 2)]},
             "Classes": set(classes), "Values": {"$set": list(values if values is not None else range(-2, 4))},
-            "SignArgs": {"$set": list(signs)}, "IdOpts": set(ids), "MaxComp": comp, "MaxKids": kids, "DictIds": dict_ids, "ExpIds": set(exp_ids), "FixOpts": {"$set": list(fix)}}
+            "SignArgs": {"$set": list(signs)}, "IdOpts": set(ids), "MaxComp": comp, "MaxKids": kids, "DictIds": dict_ids, "ExpIds": set(exp_ids), "FixOpts": {"$set": list(fix)}, "MinKids": min_kids}
 
 def random_cases(ctx, n, required, **kw):
     """seeded random recipes; every required coverage region must be hit (else the run is vacuous there)"""
@@ -59,6 +59,17 @@ def _stamp(cases, driver, **extra):
         c.update(extra)
     return cases
 
+def empty_cases(ctx, inv, **extra):
+    """propositions without sub-propositions (All(), Any(), AtLeast(k, [])) alone and nested"""
+    u = universe(ctx.tier, ["All", "Any", "AtLeast", "AtMost"], leaves=[LEAF("a"), LEAF("t", -1, 1)], values=[0, 1], signs=(0,), ids=("gen", "exp"), comp=2, kids=2, min_kids=0)
+    r = ctx.model_check("PuanBuild", u, invariants=inv, dump=True, name="Build_empty")
+    cs = [c for c in spec_cases(ctx, r, **extra) if _has_empty(c["recipe"])]
+    ctx.region("empty_proposition", len(cs))
+    return cs
+
+def _has_empty(r):
+    return r["c"] != "leaf" and (len(r["a"]) == 0 or any(_has_empty(x) for x in r["a"]))
+
 # ------------------------------------------------------------------------------------------- C01
 def run_c01(ctx):
     q = ctx.tier == "quick"
@@ -70,6 +81,7 @@ def run_c01(ctx):
     r2 = ctx.model_check("PuanBuild", u2, invariants=["C01"], dump=True, name="Build_C01_classes")
     cases += spec_cases(ctx, r2)
     cases += random_cases(ctx, 300 if q else 4000, REGIONS, max_box=128)
+    cases += empty_cases(ctx, ["C01"])
     # 16-bit leaf ranges: critical points instead of the full box
     wc = random_cases(ctx, 150 if q else 2000, ["wide_leaf"], wide=True, max_kids=3, depth=2, values=(-3, 40000))
     for c in wc: c["wide"] = True
@@ -109,6 +121,7 @@ def run_c03(ctx):
     u2 = universe(ctx.tier, ["AtLeast", "Any"], leaves=[LEAF("a"), LEAF("t", -1, 1)], comp=2, kids=2, ids=("exp",), signs=(0, -1), values=[0, 1, 2], fix=(-1, 0, 1))
     r2 = ctx.model_check("PuanBuild", u2, invariants=["C03"], dump=True, name="Build_C03_prefixed")
     cases += spec_cases(ctx, r2, n_over=2)
+    cases += empty_cases(ctx, ["C03"], n_over=2)
     cases += random_cases(ctx, 300 if q else 4000, REGIONS + ["prefixed_compound"], max_box=128, prefix=0.2)
     ctx.pmap(drivers.drv_evaluate, _stamp(cases, "drv_evaluate"))
     if not q: repo_test_events(ctx, ['evaluate'])
@@ -192,6 +205,7 @@ def run_c07(ctx):
     u2 = universe(ctx.tier, ["AtLeast", "Any"], leaves=[LEAF("a"), LEAF("t", -1, 1)], comp=2, kids=2, ids=("exp",), signs=(0, -1), values=[0, 1, 2], fix=(-1, 0, 1), dict_ids=1)
     r2 = ctx.model_check("PuanBuild", u2, invariants=["C07"], dump=True, name="Build_C07_prefixed")
     cases += spec_cases(ctx, r2, max_ids=2, n_dicts=8 if q else 30)
+    cases += empty_cases(ctx, ["C07"], max_ids=2, n_dicts=6)
     rc = random_cases(ctx, 250 if q else 3000, REGIONS + ["prefixed_compound"], max_box=64, prefix=0.2)
     for c in rc: c.update(max_ids=3, n_dicts=8 if q else 24)
     cases += rc
@@ -208,6 +222,7 @@ def run_c08(ctx):
     u2 = universe(ctx.tier, ["AtLeast", "Any"], leaves=[LEAF("a"), LEAF("t", -1, 1)], comp=2, kids=2, ids=("exp",), signs=(0, -1), values=[0, 1, 2], fix=(-1, 0, 1), dict_ids=1)
     r2 = ctx.model_check("PuanBuild", u2, invariants=["C08"], dump=True, name="Build_C08_prefixed")
     cases += spec_cases(ctx, r2, max_ids=2, n_dicts=8 if q else 30)
+    cases += empty_cases(ctx, ["C08"], max_ids=2, n_dicts=6)
     rc = random_cases(ctx, 250 if q else 3000, REGIONS + ["prefixed_compound"], max_box=64, prefix=0.2)
     for c in rc: c.update(max_ids=3, n_dicts=8 if q else 24)
     cases += rc
